@@ -308,6 +308,14 @@ def run(ctx, rep):
                                                                                                     "core::result::Result::expect", "core::option::Option::unwrap"}):
                 if a.matches(REWRITING):
                     through.append(mir.short(a.callee()))
+            # ... and so is a path that was rendered as text: Path::display / to_string_lossy replace what is not UTF-8 (`caf\xE9.mmm` becomes
+            # `caf\u{FFFD}.mmm`, another name - the file stays, or a file of that other name goes)
+            LOSSY = ("std::path::Path::display", "std::path::Path::to_string_lossy", "std::ffi::OsStr::to_string_lossy", "std::ffi::OsStr::display")
+            for a in rules.origin_calls(gfn, op_local(c.args[0]), transparent=rules.TRANSPARENT | {rules.TRY_BRANCH, "alloc::string::ToString::to_string",
+                                        "alloc::fmt::format", "alloc::borrow::Cow::into_owned", "alloc::string::String::as_str", "core::result::Result::unwrap",
+                                        "core::option::Option::unwrap"}):
+                if a.matches(LOSSY):
+                    through.append(mir.short(a.callee()) + " (lossy for names that are not UTF-8)")
         st_same = "ok" if same else ("violated" if (through or (path_entries and name_entries and okflow)) else "undecided")
         rep.ob("C20.same-entry", "the path handed to remove_file is the tested directory entry's own path", st_same,
                ("the deleted path goes through %s: it can name another file than the entry whose name was tested (e.g. the target of a symlink); " % through if through else "")
